@@ -574,19 +574,18 @@ fn spec_of() -> Spec<'static> {
         ],
         required_classes: &[
             "bad/own/accept",
-            "good/own/reject:validation",
+            "good/own/reject*",
             "good/swap-same-axis/reject*",
             "good/swap-orthogonal/reject*",
             "good/swap-reindexed/reject*",
             "good/dup/reject*",
             "good/wrong-line/reject*",
-            "good/substitute/reject:proof",
-            "good/tamper/reject:proof",
+            "good/substitute/reject*",
+            "good/tamper/reject*",
             "good/envelope-height/reject*",
             "good/envelope-len/reject*",
-            "no-axis/envelope-index/reject:validation",
-            "no-axis/envelope-index/reject:decode",
-            "no-axis/envelope-axis/reject:decode",
+            "no-axis/envelope-index/reject*",
+            "no-axis/envelope-axis/reject*",
         ],
         exhaustive: true,
     }
